@@ -40,7 +40,12 @@ RULE = ("cexprgen builds constant-expression trees bottom-up over literals of ev
         "casts to the 11 integer types, float-literal casts, + - * / % << >> & | ^ ~ - + ! < <= > >= == != "
         "&& || ?: (incl. unevaluated operands that divide by zero), evaluating each node with C rules so "
         "no tree has UB; trees initialise scalars/arrays/structs of each integer type, bit-fields (value "
-        "and width), enumerators, array bounds and case labels. non-trivial = item whose trees contain "
+        "and width), enumerators (also into narrower objects), array bounds and case labels; plus initialisers "
+        "whose expression type differs from the object: integer constants cast to pointers (negative, huge, "
+        "through narrower integer types; scalars, arrays, struct members), string literals with \\377 \\200 "
+        "\\xff into char/signed char/unsigned char arrays (unsized, exact, wider), integer expressions into "
+        "float/double, floating literals into integers, pointer+long+char-array aggregates (nested, "
+        "designated). non-trivial = item whose trees contain "
         ">= 1 operator; distinct by hash of (kind, destination type, expression texts)")
 ASSUMPTIONS = ["gcc 12 -std=c99 -pedantic-errors -O0 evaluates integer constant expressions per C99 on x86-64",
                "the bytes of a data symbol in gcc's relocatable object (read by a 40-line ELF64 symbol reader) are the object's initial image",
